@@ -6,6 +6,7 @@ import random
 from typing import Any, Dict
 
 from hivemon.checks.common import hostile_stack, BUILTIN, run_check, std_summary, trace_case
+from hivemon.gen import graph as G
 
 
 def build_network(net: Dict[str, Any]):
@@ -170,6 +171,10 @@ def build_cases(tier, seed):
             net["stubs"] = rnd.choice([0.2, 0.5])
         if k in (2, 3):
             net["parallel"] = rnd.choice([0.05, 0.15])
+        if j % 3 == 1:
+            net["latlon_keys"] = True
+        if j % 5 == 2:
+            net["origin"] = list(G.PLACES[(j // 5) % len(G.PLACES)])  # a town elsewhere on the globe
         cases.append({"engine": "c13_sweep", "id": f"C13-sweep{j}", "seed": seed * 1000 + j, "net": net, "n": per})
     if tier == "thorough":
         for j in range(8):
